@@ -274,6 +274,7 @@ type checker struct {
 	res     *caseResult // result of the case being executed
 	replay  bool
 	scratch string
+	routed  []string // routes (topic / index) observed for the deliverable events of the batch verified last
 }
 
 // caseResult is everything one case contributes to the evidence; it is what an isolated child process sends back.
@@ -485,6 +486,10 @@ func (c *checker) compareSplit(t *target, acc []frame, want []*V, exact bool) *p
 
 // routes: informational only (the statement does not speak about the routing value itself)
 func (c *checker) routes(t *target, fs []frame, want []*V) {
+	c.routed = nil
+	for _, f := range fs {
+		c.routed = append(c.routed, f.route)
+	}
 	if t.route == nil {
 		return
 	}
@@ -561,9 +566,24 @@ func (c *checker) exec(tc tcase) (res caseResult) {
 			c.violation(t, phase, trig, &problem{"panic", pan}, tc)
 			return
 		}
+		c.routed = nil
 		if p := c.verify(t, specs, sc, txs, outErr); p != nil {
 			c.violation(t, phase, trig, p, tc)
 			return
+		}
+		if bi > 0 && sc.Kind == "ok" && c.routed != nil {
+			// reuse of per-worker buffers: where a record / document is routed (topic, index) must not depend on what
+			// the worker sent before - the same batch through a fresh worker is the reference
+			reused := append([]string(nil), c.routed...)
+			if b2, err := build(specs); err == nil {
+				fw := t.worker()
+				if txf, errf, panf := t.call(fw, b2, script{Kind: "ok"}); panf == "" && c.verify(t, specs, script{Kind: "ok"}, txf, errf) == nil && c.routed != nil {
+					if strings.Join(reused, "\x00") != strings.Join(c.routed, "\x00") {
+						c.violation(t, phase, trig, &problem{"reuse-route", fmt.Sprintf("the events of the batch are routed to %q by a worker that sent other batches before, to %q by a fresh worker", reused, c.routed)}, tc)
+						return
+					}
+				}
+			}
 		}
 		key = append(key, c.payloadKey(t, txs))
 		if len(txs) > 0 && !utf8.Valid(txs[0].body) {
